@@ -78,6 +78,8 @@ def gen_cases(rng, tier, driver, corr, stats):
                         corr.one("HMO %s %s %s%s" % (v, hx(k), hx(m), ak))
                     else:
                         parts = gen.split_data(m, gen.partition(rng, mlen, 8))
+                        if not ak and rng.random() < 0.35:
+                            ak = " RE:%d" % rng.randrange(1, 1 << 30); stats["ops"]["HMAC-through-reinit"] += 1
                         corr.one("HM %s %s %s%s" % (v, hx(k), ",".join(hx(p) for p in parts) or "-", ak))
                     stats["ops"]["HMAC"] += 1; stats["len"].append(mlen); stats["keylen"].append(klen)
         for v in ("kmac", "kmaca"):
@@ -91,7 +93,11 @@ def gen_cases(rng, tier, driver, corr, stats):
                         parts = gen.split_data(m, gen.partition(rng, mlen, 8))
                         L = rng.choice([outl, 0, 32, 2 ** 29])
                         outs = gen.partition(rng, outl, 8) if outl else [0]
-                        corr.one("KM %s %s %s %d %s %s" % (v, hx(k), hx(cu), L, ",".join(hx(p) for p in parts) if parts else "-", ",".join(map(str, outs))))
+                        # a third of them through *_reinit on an object with a prior history (RE:<seed>), as in C07
+                        re = " RE:%d" % rng.randrange(1, 1 << 30) if rng.random() < 0.35 else ""
+                        if re:
+                            stats["ops"]["KMAC-through-reinit"] += 1
+                        corr.one("KM %s %s %s %d %s %s%s" % (v, hx(k), hx(cu), L, ",".join(hx(p) for p in parts) if parts else "-", ",".join(map(str, outs)), re))
                     stats["ops"]["KMAC"] += 1; stats["keylen"].append(klen)
     # verification: the right tag, each of the 128 one-bit-wrong tags, random tags
     base = [(gen.patterned(rng, 16), rnd_bytes(rng, L)) for L in (0, 1, 31, 32, 33, 100)]
